@@ -353,7 +353,7 @@ class World:
             return True
         t = run.fs.as_plain(self.sb.rel)
         t[self.cache_rel] = ('f', b'<cache>')
-        return self._mask(uni.plain(res.after, self.cache_rel)) == self._mask(t)
+        return uni.plain(res.after, self.cache_rel) == t
 
     def _adopt_real_tree(self, snapshot):
         t = {}
@@ -399,8 +399,10 @@ class World:
                           real=_short(d[1]) if d else None, ref=_short(d[2]) if d else None))
             self.diverged = True
             return
-        a = self._mask(uni.plain(res.after, self.cache_rel))
-        b = self._mask(self._ref_plain())
+        # trees are compared in full: the cache directory is created by the build and recorded, so it
+        # must be there after a commit and gone after clean (latitude (a) only concerns query answers)
+        a = uni.plain(res.after, self.cache_rel)
+        b = self._ref_plain()
         if real[0] == 'exc':
             return       # tree after a failed build: rollback monitor
         if a != b:
@@ -506,8 +508,8 @@ class World:
                 V.append(viol('clean.raised', {'real': res.real[1]}))
                 self.diverged = True
             else:
-                a = self._mask(uni.plain(res.after, self.cache_rel))
-                b = self._mask(self._ref_plain())
+                a = uni.plain(res.after, self.cache_rel)
+                b = self._ref_plain()
                 if a != b:
                     extra = sorted(set(a) - set(b))
                     missing = sorted(set(b) - set(a))
